@@ -18,3 +18,8 @@ package keyholder
 //@   assert at call append#1@7a5b4524.1: khk.n > old(khk.n) && callarg1 == khk.ret0[khk.n - 1]
 //@   loop 0 invariant idx + 1 <= len(old(r.keyHolders)) && khk.n == old(khk.n) + idx + 1 && forall j int :: 0 <= j && j <= idx ==> khk.arg0[old(khk.n) + j] == old(r.keyHolders[j])
 //@   ensures khk.n == old(khk.n) + len(old(r.keyHolders))
+
+// what the management endpoint asks of the registry (ghost log rkeys)
+//@ iface (Registry).Keys
+//@   props C16
+//@   logged rkeys
